@@ -22,6 +22,7 @@ pub mod c19;
 pub mod c20;
 pub mod extendpaths;
 pub mod fuzzdecode;
+pub mod giant;
 
 pub const ALL: &[&str] = &["C01", "C02", "C03", "C04", "C05", "C06", "C07", "C08", "C09", "C10", "C11", "C12", "C13", "C14", "C15", "C16", "C17", "C18", "C19", "C20"];
 
